@@ -476,6 +476,7 @@ func c08retag(env *core.Env) {
 	type obs struct {
 		err  error
 		data []byte
+		head bool
 	}
 	results := make([][]obs, nreaders)
 	sched := env.Sched
@@ -498,12 +499,31 @@ func c08retag(env *core.Env) {
 		}
 	})
 	nreads := c.Range("reads", 1, 4)
+	heads := make([][]bool, nreaders)
+	for k := range heads {
+		for i := 0; i < nreads; i++ {
+			heads[k] = append(heads[k], c.Bool("read.resolve-only", 1, 3))
+		}
+	}
 	for k := 0; k < nreaders; k++ {
 		k := k
 		sched.Spawn(fmt.Sprintf("reader%d", k), func() {
 			r := mkReg()
 			for i := 0; i < nreads; i++ {
 				sched.Yield()
+				if heads[k][i] {
+					// (over HTTP: a HEAD request, answered from the tag alone or in
+					// however many steps the server takes)
+					desc, err := r.ResolveTag(ctx, repo, tag)
+					o := obs{err: err, head: true}
+					for v := 0; err == nil && v <= nver; v++ {
+						if desc.Digest == reg.Sha256(mk(v)) {
+							o.data = mk(v)
+						}
+					}
+					results[k] = append(results[k], o)
+					continue
+				}
 				br, err := r.GetTag(ctx, repo, tag)
 				o := obs{err: err}
 				if err == nil {
@@ -519,6 +539,9 @@ func c08retag(env *core.Env) {
 			for i, o := range rs {
 				env.Op(fmt.Sprintf("gettag:%v", o.err == nil))
 				env.Logf("reader %d read %d -> %d bytes err=%v", k, i, len(o.data), o.err)
+				if o.err != nil && o.head {
+					env.Failf("C08/tag-reported-missing", "reader %d: ResolveTag(%q) failed with %q although the tag pointed at an existing manifest at every instant (the writer re-tags before it deletes the previous version)", k, tag, o.err)
+				}
 				if o.err != nil {
 					env.Failf("C08/tag-reported-missing", "reader %d: GetTag(%q) failed with %q although the tag pointed at an existing manifest at every instant (the writer re-tags before it deletes the previous manifest)", k, tag, o.err)
 				}
